@@ -1077,9 +1077,9 @@ class VG:
                     return ('ref', ('payload', o[1]))
                 if isinstance(o, tuple) and o and o[0] == 'ref':
                     o = self.deref(o)
-                if isinstance(o, tuple) and o and o[0] == 'op' and o[1] == 'partial_cmp':
-                    self.event('unwrap_cmp', (o,), e)
-                    return o
+                if isinstance(o, tuple) and o and o[0] == 'some' and o[1][0] == 'op' and o[1][1] == 'partial_cmp':
+                    self.event('unwrap_cmp', (o[1],), e)
+                    return o[1]
                 self.event('unwrap', (o,), e)
                 p = payload(o)
                 return p
@@ -1139,7 +1139,7 @@ class VG:
                 return NONE
             return ('default', ty)
         if name in ('std::cmp::PartialOrd::partial_cmp',):
-            return op('partial_cmp', d(argv[0]), d(argv[1]))
+            return some(op('partial_cmp', d(argv[0]), d(argv[1])))
         if name in ('std::cmp::PartialOrd::lt', 'std::cmp::PartialOrd::le', 'std::cmp::PartialOrd::gt', 'std::cmp::PartialOrd::ge',
                     'std::cmp::PartialEq::eq', 'std::cmp::PartialEq::ne'):
             return op(short, d(argv[0]), d(argv[1]))
